@@ -279,7 +279,36 @@ pub fn check_join_request_bytes(bytes: &[u8], key: &[u8; 16]) -> Result<(bool, b
     }
 }
 
+/// Decoding used by the libFuzzer target: a mode byte, a counter, then either raw frame bytes or a
+/// seed from which a valid frame is built and then overwritten by the remaining bytes' mutations.
+pub fn fuzz_decode(data: &[u8]) -> (Vec<u8>, [u8; 16], Option<[u8; 16]>, u32) {
+    let mode = data.first().copied().unwrap_or(0);
+    let mut fcnt = [0u8; 4];
+    for (i, b) in data.iter().skip(1).take(4).enumerate() {
+        fcnt[i] = *b;
+    }
+    let fcnt = u32::from_le_bytes(fcnt);
+    let rest = if data.len() > 5 { &data[5..] } else { &[][..] };
+    let nwk = [0x2b, 0x7e, 0x15, 0x16, 0x28, 0xae, 0xd2, 0xa6, 0xab, 0xf7, 0x15, 0x88, 0x09, 0xcf, 0x4f, 0x3c];
+    let app = [0x60u8; 16];
+    let mut frame = rest[..rest.len().min(255)].to_vec();
+    if mode & 1 == 1 && frame.len() >= 12 {
+        // give the frame a valid MIC for the chosen counter so that the accepting paths are reachable
+        let n = frame.len();
+        let mic = data_mic(&nwk, &frame[..n - 4], fcnt);
+        frame[n - 4..].copy_from_slice(&mic);
+        if mode & 2 == 2 {
+            frame[n - 1] ^= 1 << ((mode >> 4) & 7);
+        }
+    }
+    (frame, nwk, if mode & 4 == 4 { None } else { Some(app) }, fcnt)
+}
+
 pub fn replay(case: &Value, _kf: &KnownFindings) -> Result<(), Failure> {
+    if case["kind"] == "fuzz_raw" {
+        let (frame, nwk, app, fcnt) = fuzz_decode(&unhex(case["data"].as_str().unwrap_or("")));
+        return check_bytes(&frame, &nwk, app.as_ref(), fcnt).map(|_| ());
+    }
     let frame = unhex(case["frame"].as_str().unwrap_or(""));
     match case["kind"].as_str() {
         Some("bytes") => check_bytes(&frame, &key_from_json(&case["nwk"]).unwrap_or([0; 16]), key_from_json(&case["app"]).as_ref(), case["fcnt_arg"].as_u64().unwrap_or(0) as u32).map(|_| ()),
